@@ -280,6 +280,22 @@ def run(chk, repo):
                    why="with a non-strict guard the window moves as soon as the position reaches its centre: one input more "
                        "than needed is read (and a finite input ends one output early)", node=wl)
     chk.floor("R2.4", n24, 1, "window-advance loops in resample")
+    # ... and nothing in resample consumes a source as a whole
+    tainted = {"sig", "step"}
+    for _ in range(3):
+        for a_ in ast.walk(rs):
+            if isinstance(a_, ast.Assign) and len(a_.targets) == 1 and isinstance(a_.targets[0], ast.Name) \
+                    and isinstance(a_.value, ast.Call) and unparse(a_.value.func) in ("iter", "Stream", "thub", "it.chain", "xmap", "xzip") \
+                    and any(isinstance(n_, ast.Name) and n_.id in tainted for n_ in ast.walk(a_.value)):
+                tainted.add(a_.targets[0].id)
+    eager_sites = [n for n in ast.walk(rs) if isinstance(n, ast.Call) and unparse(n.func) in e2.Alternation.EAGER
+                   and n.args and any(isinstance(x, ast.Name) and x.id in tainted for x in ast.walk(n.args[0]))
+                   and not (isinstance(n.args[0], ast.Call) and isinstance(n.args[0].func, ast.Attribute) and n.args[0].func.attr in ("take", "peek")
+                            and n.args[0].args)]
+    chk.decide(not eager_sites, "R2.4", "%s:resample" % pmod.relpath,
+               "no whole-source consumer (list / tuple / sum / len ...) on %s" % sorted(tainted),
+               why="%s reads the whole input before the first output: an endless input never produces anything"
+                   % (short(eager_sites[0]) if eager_sites else ""), node=eager_sites[0] if eager_sites else rs)
 
     # generator stages must not touch their source outside generator frames: being generator functions they cannot.
     # ParallelFilter hub
